@@ -12,6 +12,7 @@ Do(p, name, rec) == pr' = p /\ depth' = depth + 1 /\ last' = name /\ hist' = App
 Next == /\ depth < Depth
         /\ \/ \E p \in Periods \cup {0} : Do(SyncStart(pr, p).pr, "sync_start", [op |-> "sync_start", period_us |-> p])
            \/ Do(SyncStop(pr), "sync_stop", [op |-> "sync_stop"])
+           \/ \E id \in {128, 129} : Do(SyncSetCob(pr, id), "sync_cob", [op |-> "sync_cob", id |-> id])
            \/ \E p \in Periods \cup {0} : Do(PdoStart(pr, p).pr, "pdo_start", [op |-> "pdo_start", period_us |-> p])
            \/ Do(PdoStop(pr), "pdo_stop", [op |-> "pdo_stop"])
            \/ \E id \in {385, 641} : Do(PdoSetCob(pr, id), "pdo_cob", [op |-> "pdo_cob", id |-> id])
@@ -33,6 +34,7 @@ NoneAfterZeroHeartbeat == (last = "write1017" /\ pr.od1017 = 0) => pr.hb = Off
 DisconnectStopsPdo == last = "disconnect" => pr.pdo = Off
 HbPayloadIsState == pr.hb # Off => pr.hb.d = <<pr.hbState>>
 RestartUsesCurrentId == last = "pdo_start" /\ pr.pdo # Off => pr.pdo.id = pr.pdoId
+SyncRestartUsesCurrentId == last = "sync_start" /\ pr.sync # Off => pr.sync.id = pr.syncId
 PdoPayloadCurrent == pr.pdo # Off => pr.pdo.d = pr.pdoData
 GenPrint == depth = Depth => PrintT(<<"BEH", ToJson(hist)>>)
 =============================================================================
